@@ -89,10 +89,8 @@ def project_problem(problem, matrices):
                         raise Unsupported('required break')
                     off = not isinstance(b['time'][0], str)
                     w = [[I(b['time'][0]), I(b['time'][1])]] if off else [[T(b['time'][0]), T(b['time'][1])]]
-                    if len(b['places']) != 1:
-                        raise Unsupported('multi-place break')
-                    p = b['places'][0]
-                    breaks.append({'loc': lix(p['location']) if p.get('location') else 0, 'dur': I(p['duration']), 'tag': p.get('tag') or '', 'isOffset': off, 'tws': w})
+                    breaks.append({'isOffset': off, 'tws': w,
+                                   'places': [{'loc': lix(p['location']) if p.get('location') else 0, 'dur': I(p['duration']), 'tag': p.get('tag') or ''} for p in b['places']]})
                 shifts.append({
                     'sloc': lix(sh['start']['location']), 'earliest': T(sh['start']['earliest']),
                     'latest': T(sh['start']['latest']) if sh['start'].get('latest') else -1,
